@@ -914,7 +914,7 @@ class PathEnumerator:
             return self._unrolled(st, p, fr)
         if isinstance(st, ast.For):
             it = it_override if it_override is not None else ev.expr(st.iter, f)
-            it = _concrete_iter(it)
+            it = _concrete_iter(it, p)
             if self.split_ite and not st.orelse:
                 # ``for x in (a if c else b).nodes():`` -- the choice is made once, before the loop: the if-statement it abbreviates
                 ites = subterms(it, lambda x: x[0] == "ite")
@@ -1038,15 +1038,25 @@ class PathEnumerator:
         return outs
 
 
-def _concrete_iter(it: Term) -> Term:
-    """``reversed`` / ``zip`` / ``list`` / ``tuple`` of displays of known length are the display they produce (so that a loop over them unrolls)."""
+def _concrete_iter(it: Term, p: Optional[Path] = None) -> Term:
+    """``reversed`` / ``zip`` / ``list`` / ``tuple`` of displays of known length are the display they produce (so that a loop over them unrolls).
+    A local list counts only with the elements it holds on the path so far (it may have been filled by appends)."""
     def plain(x):
-        while x[0] == "var" and len(x) > 3 and isinstance(x[3], tuple):
-            x = x[3]
+        if x[0] == "var" and len(x) > 3 and isinstance(x[3], tuple):
+            if p is None:
+                return ("opaque",)
+            from .listflow import concrete_list
+            try:
+                items = concrete_list(p, x)
+            except Exception:
+                items = None
+            if items is None:
+                return ("opaque",)
+            return ("list", tuple(items))
         return x
-    t = plain(it)
+    t = it
     if t[0] == "call" and t[1] in ("reversed", "zip", "list", "tuple") and t[2] and not t[3]:
-        args = [plain(_concrete_iter(a)) for a in t[2]]
+        args = [plain(_concrete_iter(a, p)) for a in t[2]]
         if all(a[0] in ("list", "tuple") and not any(x[0] == "star" for x in a[1]) for a in args):
             if t[1] == "reversed" and len(args) == 1:
                 return ("list", tuple(reversed(args[0][1])))
